@@ -38,7 +38,7 @@ import numpy as np
 import pandas as pd
 
 from runtime import datasets as D
-from runtime.harness import Case, import_fastparquet
+from runtime.harness import Case, import_fastparquet, tmpdir
 from spec import thrift_idl
 
 G_RAW, G_USER, G_SORTED = "c04.stats.raw", "c04.stats.user", "c04.stats.sorted"
@@ -121,6 +121,9 @@ def _canon_scalar(v):
     """Logical value -> (kind, comparable python value)."""
     if isinstance(v, (bool, np.bool_)):
         return ("bool", bool(v))
+    if isinstance(v, np.timedelta64):          # (a subclass of np.signedinteger: test before the integers)
+        unit = np.datetime_data(v.dtype)[0]
+        return ("td_ns", int(v.view("int64")) * NS_PER[unit])
     if isinstance(v, (int, np.integer)):
         return ("int", int(v))
     if isinstance(v, (float, np.floating)):
@@ -130,15 +133,12 @@ def _canon_scalar(v):
     if isinstance(v, (bytes, bytearray, np.bytes_)):
         return ("bytes", bytes(v))
     if isinstance(v, pd.Timestamp):
-        if v.tzinfo is not None:
-            v = v.tz_convert("UTC").tz_localize(None)
-        return ("ts_ns", int(v.to_datetime64().astype("datetime64[ns]").view("int64")) if v.unit == "ns"
-                else int(np.datetime64(v.asm8).view("int64")) * NS_PER[v.unit])
+        return ("ts_ns", int(v.value))              # .value is nanoseconds since the epoch (UTC instant)
     if isinstance(v, np.datetime64):
         unit = np.datetime_data(v.dtype)[0]
         return ("ts_ns", int(v.view("int64")) * NS_PER[unit])
     if isinstance(v, pd.Timedelta):
-        return ("td_ns", int(v.asm8.view("int64")) * NS_PER[v.unit])
+        return ("td_ns", int(v.value))
     if isinstance(v, np.timedelta64):
         unit = np.datetime_data(v.dtype)[0]
         return ("td_ns", int(v.view("int64")) * NS_PER[unit])
@@ -296,7 +296,7 @@ def check_statistics(fp, path, df, options):
     pf = fp.ParquetFile(path)
     user = pf.statistics
     spc = fp.api.sorted_partitioned_columns(pf)
-    expected = {}
+    expected, rawdec = {}, {}
     start = 0
     for gi, (rg, z) in enumerate(zip(rgs, sizes)):
         for cc in rg["columns"]:
@@ -307,10 +307,21 @@ def check_statistics(fp, path, df, options):
                 continue
             s = cols[name].iloc[start:start + z]
             se = schema[name]
-            optional = se.get("repetition_type") == idl.enums["FieldRepetitionType"]["OPTIONAL"]
+            # OPTIONAL per the documented meaning of has_nulls (the footer field itself is C02/C10 business:
+            # has_nulls='infer' writes it with a Thrift BOOL wire type)
+            optional = D.column_optional(has_nulls, s, name)
             exp = oracle_column(s, optional)
             expected.setdefault(name, []).append(exp)
             st = md.get("statistics") or {}
+            dec = {"null_count": st.get("null_count"), "min": None, "max": None, "json": exp["kind"] == "json"}
+            for which in ("min", "max"):
+                raw = st.get(which) if st.get(which) is not None else st.get(which + "_value")
+                if raw is not None:
+                    try:
+                        dec[which] = decode_stat(raw, se, idl)
+                    except Exception:
+                        dec[which] = ("undecodable", raw)
+            rawdec.setdefault(name, []).append(dec)
             where = f"row group {gi} column {name!r}"
             # -- raw clause
             if verdict[G_RAW] is None:
@@ -351,32 +362,34 @@ def check_statistics(fp, path, df, options):
                         if a[1] > b[1]:
                             verdict[G_RAW] = f"{where}: min {a[1]!r} > max {b[1]!r}"
         start += z
-    # -- user clause
-    for name, exps in expected.items():
+    # -- user clause: what ParquetFile.statistics shows must be what the stored statistics denote
+    for name, decs in rawdec.items():
         if verdict[G_USER] is not None:
             break
         for which in ("min", "max", "null_count"):
             lst = user.get(which, {}).get(name)
             if lst is None:
                 continue
-            if len(lst) != len(exps):
+            if len(lst) != len(decs):
                 if all(v is None for v in lst):
                     continue                      # "[None]" = nothing known for the column
-                verdict[G_USER] = f"statistics[{which!r}][{name!r}] has {len(lst)} entries for {len(exps)} row groups"
+                verdict[G_USER] = f"statistics[{which!r}][{name!r}] has {len(lst)} entries for {len(decs)} row groups"
                 break
-            for gi, (v, exp) in enumerate(zip(lst, exps)):
+            for gi, (v, dec) in enumerate(zip(lst, decs)):
                 if v is None:
-                    continue
+                    continue                      # None = unknown: always sound
+                verdict["user_compared"] = verdict.get("user_compared", 0) + 1
                 if which == "null_count":
-                    if int(v) != exp["null_count"]:
-                        verdict[G_USER] = f"statistics['null_count'][{name!r}][{gi}] = {v} but {exp['null_count']} cells are null"
+                    if dec["null_count"] is None or int(v) != dec["null_count"]:
+                        verdict[G_USER] = (f"statistics['null_count'][{name!r}][{gi}] = {v} but the footer says "
+                                           f"{dec['null_count']}")
+                elif dec["json"]:
                     continue
-                if exp["kind"] == "json":
-                    continue
-                if exp[which] is None:
-                    verdict[G_USER] = f"statistics[{which!r}][{name!r}][{gi}] = {v!r} but the chunk has no ordered non-null value"
-                elif not same_stat(_canon_scalar(v), exp[which]):
-                    verdict[G_USER] = f"statistics[{which!r}][{name!r}][{gi}] = {v!r} but the data has {exp[which][1]!r}"
+                elif dec[which] is None:
+                    verdict[G_USER] = f"statistics[{which!r}][{name!r}][{gi}] = {v!r} but the footer carries no {which}"
+                elif not same_stat(_canon_scalar(v), dec[which]):
+                    verdict[G_USER] = (f"statistics[{which!r}][{name!r}][{gi}] = {v!r} but the footer bytes denote "
+                                       f"{dec[which][1]!r} ({dec[which][0]})")
                 if verdict[G_USER]:
                     break
             if verdict[G_USER]:
@@ -388,6 +401,18 @@ def check_statistics(fp, path, df, options):
         if exps is None:
             verdict[G_SORTED] = f"sorted_partitioned_columns lists unknown column {name!r}"
             break
+        if any(e["kind"] == "json" for e in exps):
+            # JSON sorts by the bytes of its serialisation; the writer's separator style is not ours to fix:
+            # fail only if the groups are unsorted under both the compact and the spaced style
+            verdicts = []
+            for sep in ((",", ":"), (", ", ": ")):
+                ser = [[json.dumps(m, separators=sep, ensure_ascii=False).encode() for m in e.get("members", [])]
+                       for e in exps]
+                verdicts.append(all(a and b and max(a) < min(b) for a, b in zip(ser[:-1], ser[1:])))
+            if not any(verdicts):
+                verdict[G_SORTED] = f"{name!r} (JSON) is listed as sorted across row groups but its serialised values are not"
+                break
+            continue
         if any(e["min"] is None or e["max"] is None for e in exps):
             verdict[G_SORTED] = f"{name!r} is listed although a row group has no ordered non-null value"
             break
@@ -448,34 +473,54 @@ def run_case(fp, features, scratch):
     for g in (G_RAW, G_USER, G_SORTED):
         res[g] = verdict.get(g)
     res["compared"], res["listed"] = verdict.get("compared", 0), verdict.get("listed", 0)
+    res["user_compared"] = verdict.get("user_compared", 0)
     res["evaluations"] = verdict.get("evaluations", 0)
     res["cat_order"] = cat_order_feature(df, kwargs)
     return res
 
 
 def cat_order_feature(df, kwargs):
-    """'differs' when some categorical column has a row group whose least/greatest VALUE is not the
-    value with the least/greatest category code (category order != value order on the values present),
-    else 'agrees' ('-' without categorical column)."""
-    cats = [c for c in df.columns if isinstance(df[c].dtype, pd.CategoricalDtype)]
+    """Input-side description of the categorical columns that get statistics (stats=True or named in the list):
+       '-'               no such column
+       'agrees'          in every row group the least/greatest VALUE present is the value with the
+                         least/greatest category code
+       'differs'         some row group where category order and value order disagree on the extremes
+       'differs,listed'  additionally the by-category-code extremes are non-null in every row group and
+                         strictly increasing across row groups, i.e. bounds taken by category code make the
+                         column look sorted across row groups"""
+    stats = kwargs.get("stats", "auto")
+    cats = [c for c in df.columns if isinstance(df[c].dtype, pd.CategoricalDtype)
+            and (stats is True or (isinstance(stats, (list, tuple)) and str(c) in stats))]
     if not cats:
         return "-"
-    sizes = D.row_group_sizes(len(df), kwargs.get("row_group_offsets"))
+    sizes = [z for z in D.row_group_sizes(len(df), kwargs.get("row_group_offsets")) if z > 0]
+    key = _value_sort_key
+    out = "agrees"
     for c in cats:
         start = 0
+        differs, lo, hi = False, [], []
         for z in sizes:
             s = df[c].iloc[start:start + z]
             start += z
             codes = np.asarray(s.cat.codes)
             codes = codes[codes >= 0]
             if not len(codes):
+                lo.append(None)
+                hi.append(None)
                 continue
             labels = list(s.cat.categories)
             present = [labels[k] for k in sorted(set(codes))]
-            key = _value_sort_key
-            if key(labels[codes.min()]) != min(map(key, present)) or key(labels[codes.max()]) != max(map(key, present)):
-                return "differs"
-    return "agrees"
+            lo.append(key(labels[codes.min()]))
+            hi.append(key(labels[codes.max()]))
+            if lo[-1] != min(map(key, present)) or hi[-1] != max(map(key, present)):
+                differs = True
+        if differs:
+            listed = (None not in lo and sorted(lo) == lo and sorted(hi) == hi
+                      and all(a < b for a, b in zip(hi[:-1], lo[1:])))
+            if listed:
+                return "differs,listed"
+            out = "differs"
+    return out
 
 
 # ---- enumeration -----------------------------------------------------------------------------------------
@@ -494,7 +539,7 @@ OPTION_AXES = {
 
 
 def option_features(tier):
-    arr = D.covering_array(OPTION_AXES, 2 if tier == "quick" else 3)
+    arr = D.covering_array(OPTION_AXES, 3)      # 3-wise in both tiers (cases are cheap: only footers are read)
     base = {k: v for k, v in D.DEFAULT_OPTIONS.items()}
     out = []
     for r in arr:
@@ -534,7 +579,7 @@ def enumerate_cases(tier, seed=0):
         for k, o in enumerate(opts):                      # every option tuple meets every dtype
             n, p = roomy[(k * 5 + di) % len(roomy)]
             cases.append({"dtype": dt, "rows": n, "nulls": p, "index": "range", **o})
-        reps = 1 if tier == "quick" else 3
+        reps = 2 if tier == "quick" else 6
         for k, (n, p) in enumerate(shapes):               # every shape is used
             for r in range(reps):
                 cases.append({"dtype": dt, "rows": n, "nulls": p, "index": "range", **opts[(k * reps + r + 2 * di) % len(opts)]})
@@ -595,9 +640,9 @@ finally:
 
 
 # ---- pool ---------------------------------------------------------------------------------------------------
-def _init_worker():
+def _init_worker(root):
     import tempfile
-    return {"fp": import_fastparquet(), "dir": tempfile.mkdtemp(prefix="verif-c04-")}
+    return {"fp": import_fastparquet(), "dir": tempfile.mkdtemp(prefix="w-", dir=root)}
 
 
 def _work(state, features):
@@ -612,13 +657,16 @@ _work.cleanup = _cleanup
 
 
 def run_cases(cases, workers=None):
-    res = D.crashproof_map(_work, cases, init=_init_worker, workers=workers, weight=lambda c: c["rows"])
+    import functools
+    with tmpdir(prefix="verif-c04-") as root:        # removed even when a worker dies
+        res = D.crashproof_map(_work, cases, init=functools.partial(_init_worker, root), workers=workers,
+                               weight=lambda c: c["rows"])
     for c, (kind, r) in zip(cases, res):
         if kind == "ok":
             yield c, r
         elif kind == "crash":
             yield c, {"status": "fail", G_RAW: "interpreter crashed during write / statistics: " + r, G_USER: None,
-                      G_SORTED: None, "compared": 0, "listed": 0, "evaluations": 1, "cat_order": "-"}
+                      G_SORTED: None, "compared": 0, "listed": 0, "user_compared": 0, "evaluations": 1, "cat_order": "-"}
         else:
             yield c, {"status": "engine", "what": r}
 
@@ -627,7 +675,7 @@ RULE = ("single-column frames over the dtypes of C01's quantifier except {excl} 
         "floats with NaN/inf/-0.0, unicode text, bytes, json, naive/tz-aware timestamps of 4 units, timedelta, "
         "categoricals with sorted/unsorted/unused/ordered/300 categories, nullable Int/UInt/boolean) x rows {rows} "
         "x null patterns x value order (scrambled/ascending/descending/constant), every dtype paired with every "
-        "tuple of a {t}-wise covering array ({k} tuples) over row_group_offsets none/int/list x stats True/auto/list x "
+        "tuple of a 3-wise covering array ({k} tuples) over row_group_offsets none/int/list x stats True/auto/list x "
         "pages 1/2/3 x DATAPAGE_VERSION 1/2 x has_nulls True/False/infer x times x file_scheme x codec x write_index "
         "x value order; plus 4 mixed multi-column frames x all tuples and frames with stored int/str/datetime/multi "
         "indexes. BOUND: rows <= 8193, <= 8 columns. Non-trivial when at least one min/max was compared "
@@ -640,7 +688,7 @@ def run_bounded(ctx):
     opts = option_features(ctx.tier)
     rule = RULE.format(excl=EXCLUDED_DTYPES, n=len(D.DTYPES) - len(EXCLUDED_DTYPES),
                        rows=[1, 7, 9, 65, 8193] if ctx.tier == "quick" else [1, 7, 8, 9, 63, 64, 65, 8193],
-                       t=2 if ctx.tier == "quick" else 3, k=len(opts))
+                       k=len(opts))
     for g in (G_RAW, G_USER, G_SORTED):
         ctx.bounded_group(g, rule=rule)
     t0 = time.time()
@@ -661,7 +709,7 @@ def run_bounded(ctx):
         feats = dict(features)
         feats["cat_order"] = res["cat_order"]
         for g in (G_RAW, G_USER, G_SORTED):
-            nontrivial = res["compared"] > 0 if g != G_SORTED else res["listed"] > 0
+            nontrivial = {G_RAW: res["compared"], G_USER: res.get("user_compared", 0), G_SORTED: res["listed"]}[g] > 0
             with Case(ctx, g, feats, snippet=make_snippet(features, g), nontrivial=nontrivial, contract=CONTRACT[g]) as c:
                 if res.get(g):
                     c.fail(res[g])
